@@ -459,4 +459,98 @@ theorem Mach.rget_depth_irrelevant {C : Type} (M : Mach K V C) (P : List K → K
   rw [runProg_noLookup M (M.rget P n) (M.rget P 0) (hP _ _)]
   rfl
 
+/-! the depth beyond what a run needs is irrelevant: if a lookup, run at depth `n`, never reaches the depth guard,
+    every greater depth gives exactly the same run -/
+
+/-- the key an operation hands to `__getitem__` -/
+def Op.getKey : Op K V → Option K
+  | .getitem k => some k
+  | .get k _ => some k
+  | .setdefault k _ => some k
+  | _ => none
+
+/-- every lookup made by the callback run `p` from state `c` satisfies `sg` -/
+def safeProg {C : Type} (sg : C → K → Prop) (st : C → Op K V → C × Out K V C) : C → OmProg K V → Prop
+  | _, .done _ => True
+  | c, .call op next =>
+    (match op.getKey with
+     | some k => sg c k
+     | none => True) ∧ safeProg sg st (st c op).1 (next (st c op).2.shape)
+
+/-- `__getitem__(k)` run at depth `n` from state `c` does not reach the depth guard -/
+def Mach.safeGet {C : Type} (M : Mach K V C) (P : List K → K → OmProg K V) : Nat → C → K → Prop
+  | 0 => fun c k => M.find c k = true
+  | n + 1 => fun c k =>
+    M.find c k = true ∨
+    safeProg (M.safeGet P n) (M.stepWith (M.rget P n)) (M.missed c k) (P (M.log c) k)
+
+theorem Mach.stepWith_congr {C : Type} (M : Mach K V C) (g g' : C → K → C × Out K V C) (c : C) (op : Op K V)
+    (h : ∀ k, op.getKey = some k → g c k = g' c k) : M.stepWith g c op = M.stepWith g' c op := by
+  cases op with
+  | getitem k => exact h k rfl
+  | get k d => simp only [Mach.stepWith, h k rfl]
+  | setdefault k d => simp only [Mach.stepWith, h k rfl]
+  | _ => rfl
+
+theorem safeProg_congr {C : Type} (M : Mach K V C) {sg sg' : C → K → Prop} {g g' : C → K → C × Out K V C}
+    (hg : ∀ c k, sg c k → g' c k = g c k ∧ sg' c k) (p : OmProg K V) (c : C)
+    (h : safeProg sg (M.stepWith g) c p) :
+    runProg (M.stepWith g') c p = runProg (M.stepWith g) c p ∧ safeProg sg' (M.stepWith g') c p := by
+  induction p generalizing c with
+  | done r => exact ⟨rfl, trivial⟩
+  | call op next ih =>
+    obtain ⟨h1, h2⟩ := h
+    have hst : M.stepWith g' c op = M.stepWith g c op := by
+      apply M.stepWith_congr
+      intro k hk
+      rw [hk] at h1
+      exact (hg c k h1).1
+    have := ih _ _ h2
+    refine ⟨by simp only [runProg, hst]; exact this.1, ?_, by rw [hst]; exact this.2⟩
+    cases hk : op.getKey with
+    | none => trivial
+    | some k => rw [hk] at h1; exact (hg c k h1).2
+
+/-- the end of `__getitem__` on the miss path -/
+def Mach.finish {C : Type} (M : Mach K V C) (k : K) : C × OmRes V → C × Out K V C
+  | (c2, .ret v) => (M.setitem c2 k v, .val v)
+  | (c2, .keyError) => (c2, .keyError)
+  | (c2, .error) => (c2, .raised)
+
+theorem Mach.rget_miss {C : Type} (M : Mach K V C) (P : List K → K → OmProg K V) (n : Nat) {c : C} {k : K}
+    (hf : M.find c k = false) :
+    M.rget P (n + 1) c k = M.finish k (runProg (M.stepWith (M.rget P n)) (M.missed c k) (P (M.log c) k)) := by
+  simp only [Mach.rget, hf, Bool.false_eq_true, if_false]
+  cases runProg (M.stepWith (M.rget P n)) (M.missed c k) (P (M.log c) k) with
+  | mk c2 r => cases r <;> rfl
+
+/-- once a run does not reach the guard, one more level of depth changes nothing (and so, by induction, any
+    greater depth) -/
+theorem Mach.rget_stable {C : Type} (M : Mach K V C) (P : List K → K → OmProg K V) (n : Nat) (c : C) (k : K)
+    (h : M.safeGet P n c k) : M.rget P (n + 1) c k = M.rget P n c k ∧ M.safeGet P (n + 1) c k := by
+  induction n generalizing c k with
+  | zero =>
+    have h' : M.find c k = true := h
+    exact ⟨by simp only [Mach.rget, h', if_true], Or.inl h'⟩
+  | succ m ih =>
+    cases hf : M.find c k with
+    | true => exact ⟨by simp only [Mach.rget, hf, if_true], Or.inl hf⟩
+    | false =>
+      have h' : safeProg (M.safeGet P m) (M.stepWith (M.rget P m)) (M.missed c k) (P (M.log c) k) := by
+        rcases h with h | h
+        · rw [hf] at h; cases h
+        · exact h
+      have := safeProg_congr M (sg := M.safeGet P m) (sg' := M.safeGet P (m + 1)) (g := M.rget P m)
+        (g' := M.rget P (m + 1)) (fun c k hs => ih c k hs) _ _ h'
+      refine ⟨?_, Or.inr this.2⟩
+      rw [M.rget_miss P (m + 1) hf, M.rget_miss P m hf, this.1]
+
+theorem Mach.rget_stable_all {C : Type} (M : Mach K V C) (P : List K → K → OmProg K V) (n : Nat) (c : C) (k : K)
+    (h : M.safeGet P n c k) (m : Nat) : M.rget P (n + m) c k = M.rget P n c k ∧ M.safeGet P (n + m) c k := by
+  induction m with
+  | zero => exact ⟨rfl, h⟩
+  | succ j ih =>
+    have := M.rget_stable P (n + j) c k ih.2
+    exact ⟨this.1.trans ih.1, this.2⟩
+
 end C02
